@@ -111,7 +111,7 @@ func genInvocation(c *Chooser) invocation {
 	iv.keyStyle = c.Int(4)
 	iv.arrays = []string{"list", "list", "list", "set", "mset", "setkeys", "list", "list", "set", "mset", "setkeys", "set+keys", "mset+keys"}[c.Int(13)]
 	iv.format = []string{"jd", "jd", "patch", "merge"}[c.Int(4)]
-	if iv.arrays == "list" && c.Chance(1, 8) {
+	if (iv.arrays == "list" || iv.arrays == "setkeys") && c.Chance(1, 8) {
 		iv.precision = []float64{0.001, 0.5, 1}[c.Int(3)]
 	}
 	return iv
@@ -125,7 +125,21 @@ func docText(c *Chooser, v *Val, yaml bool) string {
 		if c.Chance(1, 3) {
 			return v.JSON(c.Int(3)) // JSON is flow-style YAML
 		}
-		return v.YAML()
+		y := v.YAML()
+		switch c.Int(8) {
+		case 0:
+			// a uniformly indented document is still the same document
+			lines := strings.Split(strings.TrimSuffix(y, "\n"), "\n")
+			for i := range lines {
+				lines[i] = "  " + lines[i]
+			}
+			y = strings.Join(lines, "\n") + "\n"
+		case 1:
+			y = "---\n" + y
+		case 2:
+			y = "\n" + y + "\n"
+		}
+		return y
 	}
 	s := v.JSON(c.Int(3))
 	if c.Chance(1, 5) {
@@ -171,6 +185,9 @@ func genSession14(c *Chooser) Session {
 	}
 	if iv.yaml && c.Chance(1, 12) {
 		g.YAMLFloats = true
+	}
+	if iv.yaml && c.Chance(1, 15) {
+		g.YAMLKeys = true
 	}
 	if c.Chance(1, 120) {
 		g.Huge = true
